@@ -15,17 +15,19 @@ DESIGN_REF = "§5 C13"
 TECHNIQUE = ("Coq: two-cursor differ (stack-of-frames cursors with advance, skipCommon / skipCommonParents with parentsAreNew, stop-cursor "
              "comparison) modelled as implemented and run on the real tree shapes; declarative diff of sorted dictionaries as spec and oracle; "
              "cursor semantics lemma (advance drops exactly the current item at any depth), skip soundness under addr_inj")
-LEVEL_TEXT = ("Proof (P): proved for every tree depth: the cursor layer the differ runs on (advance drops exactly the current item: advance_sem; "
-              "a start cursor has the whole map ahead of it: cursor_at_start_sem), soundness of subtree skipping under addr_inj (equal (key, address) "
-              "=> equal key/value pairs below: skip_sound; structural equality is such an address: node_eqb_sound), and the algebra of the declarative "
-              "diff that skipping relies on (a common prefix contributes nothing; equal maps diff to nothing). The headline equations "
-              "tree_diff = list_diff and range_diff = list_diff restricted to [lo,hi) are NOT proved; they are checked on every run by executing the "
-              "differ model (two cursors, skipCommon/skipCommonParents, stop cursors — as implemented) on the real tree shapes and comparing model, "
-              "implementation and declarative diff.")
-LEVEL_NOTE = ("Trusted: Coq kernel, Go harness + Python glue. Missing for the full theorem: the invariant linking every frame to its parent's current "
-              "child across skipCommonParents, the cursor-compare lemma for stop cursors, and fuel adequacy. Modelled, not verified: tuple comparator, "
-              "node store, the canonical-tuple filter of makeDiffCallBack (values are single fixed-width ints).")
-THEOREMS = ["advance_sem", "cursor_at_start_sem", "skip_sound", "node_eqb_sound", "list_diff_refl", "list_diff_common_prefix"]
+LEVEL_TEXT = ("Proof (F/P): tree_diff_spec / diff_maps_spec — for every pair of well-formed trees of any depths and shapes (related or not), under "
+              "addr_inj (equal child address => equal subtree), the differ as implemented (two stack cursors, advance, skipCommon / skipCommonParents "
+              "with parentsAreNew, past-end stop cursors, either value of considerAllRowsModified, makeDiffCallBack filter) terminates within the "
+              "model's own fuel and returns exactly the declarative diff of the two flattenings; the declarative diff is proved ascending with each "
+              "key at most once (list_diff_sorted). Partial: bounded key ranges (DiffMapsKeyRange / RangeDiffMaps with start/stop keys) are proved "
+              "only for the unbounded range; for bounded ranges the same loop lemmas apply but the start/stop cursor lemmas are missing, so those "
+              "rest on the correspondence (model = implementation = declarative range diff on every generated case).")
+LEVEL_NOTE = ("Trusted: Coq kernel, Go harness + Python glue. Missing for range_diff_spec: cursor_at_search satisfies the cursor invariant and has "
+              "exactly the entries >= the bound ahead of it; compareCursors against a stop cursor inside the tree orders cursors like the number of "
+              "entries ahead. list_diff_complete (membership <-> key-wise change) is proved for the one-sided cases only. Modelled, not verified: "
+              "tuple comparator, node store, canonical-tuple filter (values are single fixed-width ints).")
+THEOREMS = ["tree_diff_spec", "diff_maps_spec", "list_diff_sorted", "list_diff_refl", "advance_cinv", "cursor_at_start_cinv", "skip_ok", "skip_sound",
+            "node_eqb_sound", "key_range_diff_unbounded_partial"]
 RULE = ("pairs of maps of 0..400 entries with trees of 1..3 levels: B derived from A by 0..all-keys edits through the mutable map (shared chunks), or "
         "built independently (unrelated, different heights); key ranges unbounded / inside shared subtrees / empty / inverted / past the end; "
         "non-trivial = at least one entry in either map; distinct by case content")
